@@ -306,7 +306,16 @@ class Popen(AgentExecutingComponent):
 
         # now that the task cancellation cb would succeed, let's make sure that
         # no cancellation request sneaked in before the task got started
-        if self.is_canceled(task) is True:
+        #
+        # NOTE: `is_canceled()` would publish the task dict which at this point
+        #       holds the process handle (not serializable), so we check the
+        #       cancel list directly - `cancel_task()` does the rest.
+        with self._cancel_lock:
+            canceled = tid in self._cancel_list
+            if canceled:
+                self._cancel_list.remove(tid)
+
+        if canceled:
             self.cancel_task(task)
 
 
